@@ -304,6 +304,11 @@ func handleServerKeyExchange(
 		if psk, err = cfg.LocalPSKCallback(bytes.Clone(keyExchangeMessage.IdentityHint)); err != nil {
 			return &alert.Alert{Level: alert.Fatal, Description: alert.InternalError}, err
 		}
+		// A callback that knows no key for the identity may answer with an
+		// empty one; keys derived from it would follow from the hello randoms.
+		if len(psk) == 0 {
+			return &alert.Alert{Level: alert.Fatal, Description: alert.InternalError}, dtlserrors.ErrIdentityNoPSK
+		}
 		state.IdentityHint = bytes.Clone(keyExchangeMessage.IdentityHint)
 		switch state.CipherSuite.KeyExchangeAlgorithm() {
 		case ciphersuite.KeyExchangeAlgorithmPsk:
